@@ -531,6 +531,9 @@ with eval (q : query) (c : node) {struct q} : outcome value :=
       | _ => Complaint "matches() function second argument type must be string"
       end
     | FSubstringBefore | FSubstringAfter =>
+      match va with
+      | VNodes [] => Val (VStr "")     (* if node == nil { return "" } before the second argument is looked at *)
+      | _ =>
       let s := str_or_first va in
       do vb <- eval b c;
       let w := str_or_first vb in
@@ -539,6 +542,7 @@ with eval (q : query) (c : node) {struct q} : outcome value :=
       | Some i => Val (VStr (match f with
                              | FSubstringAfter => skipn_s (i + String.length w) s
                              | _ => firstn_s i s end))
+      end
       end
     | FStringJoin =>
       (* the separator (second argument) is evaluated first *)
@@ -554,6 +558,9 @@ with eval (q : query) (c : node) {struct q} : outcome value :=
     match f with
     | FSubstring =>
       do va <- eval a c;
+      match va with
+      | VNodes [] => Val (VStr "")     (* if node == nil { return "" } before the other arguments are looked at *)
+      | _ =>
       let m := str_or_first va in
       do vb <- eval b c;
       match vb with
@@ -569,6 +576,7 @@ with eval (q : query) (c : node) {struct q} : outcome value :=
           end
         end
       | _ => Complaint "substring() function first argument type must be number"
+      end
       end
     | FTranslate =>
       do va <- eval a c; do s <- as_string va;
